@@ -601,7 +601,7 @@ func TestC14(t *testing.T) {
 	r.Assume("request boundaries of the client script are those of the independent h1 reference on well-formed generated requests; 'received' = handed out by the scripted conn's Read (netx.Scripted.Delivered sampled inside the hook)")
 	r.Assume("a read timeout is modelled by a conn whose Read returns a net.OpError wrapping os.ErrDeadlineExceeded once the script is exhausted (the scripted conn ignores deadlines)")
 	r.Assume("which terminal state (closed vs hijacked) is reported is not judged, only that there is exactly one and nothing follows it until the case ends (hijack handler finished, Serve returned)")
-	n := r.N(20_000, 1_500_000)
+	n := r.N(20_000, 1_000_000)
 	mon.Parallel(n, 0, func(i int) {
 		if !r.Want(i) {
 			return
